@@ -37,7 +37,7 @@ import (
 	"go.uber.org/zap"
 )
 
-var submgrPaths = []string{"admin", "idle", "session-timeout", "auth-fail", "coa-disconnect", "shutdown"}
+var submgrPaths = []string{"admin", "idle", "session-timeout", "auth-fail", "coa-disconnect", "shutdown", "shutdown-during-sweep"}
 
 var submgrPrefixes = map[string][]string{
 	"admin":           {"created", "authed", "addressed", "active"},
@@ -46,6 +46,8 @@ var submgrPrefixes = map[string][]string{
 	"auth-fail":       {"created"},
 	"coa-disconnect":  {"created", "authed", "addressed", "active"},
 	"shutdown":        {"addressed", "active"},
+	// Manager.Stop() is called while the idle / session-timeout sweep is in the middle of its batch
+	"shutdown-during-sweep": {"created", "authed", "addressed", "active"},
 }
 
 func submgrCells(parked bool) []cellSpec {
@@ -54,7 +56,7 @@ func submgrCells(parked bool) []cellSpec {
 		for _, pre := range submgrPrefixes[p] {
 			if !parked {
 				seconds := []string{"none", "seq:admin", "seq:coa-disconnect", "seq:idle"}
-				if p == "shutdown" {
+				if p == "shutdown" || p == "shutdown-during-sweep" {
 					seconds = []string{"none"}
 				}
 				for _, s := range seconds {
@@ -62,7 +64,7 @@ func submgrCells(parked bool) []cellSpec {
 				}
 				continue
 			}
-			if p == "shutdown" || p == "auth-fail" || pre == "created" || pre == "authed" {
+			if p == "shutdown" || p == "shutdown-during-sweep" || p == "auth-fail" || pre == "created" || pre == "authed" {
 				continue // nothing to release: the allocator is never called
 			}
 			for _, s := range []string{"parked:admin", "parked:coa-disconnect"} {
@@ -132,7 +134,10 @@ func genSubMgr(s src, c cellSpec, base *params) *tcase {
 	if c.Fault == "release-ipv4" || c.Fault == "release-ipv6" {
 		tc.P.DualStack = true
 	}
-	if secondShape(c.Second) == "stale" {
+	if c.Path == "shutdown-during-sweep" {
+		tc.P.SweepBy = pick(s, "sweep.by", []string{"idle", "session-timeout"})
+	}
+	if secondShape(c.Second) == "stale" || c.Path == "shutdown-during-sweep" {
 		// the sweep needs a list: two background sessions that expire together with the session under test
 		for i := len(tc.P.BgMACs); i < 2; i++ {
 			tc.P.BgMACs = append(tc.P.BgMACs, genMAC(s, fmt.Sprintf("bg%d", i), i+1))
@@ -188,6 +193,9 @@ func (a *fakeAlloc) AllocateIPv6(ctx context.Context, s *subscriber.Session, poo
 
 func (a *fakeAlloc) ReleaseIPv4(ctx context.Context, ip net.IP) error {
 	k := ip.To4().String()
+	if err := ctx.Err(); err != nil {
+		return err // like the Nexus HTTP adapter: a cancelled context releases nothing
+	}
 	a.mu.Lock()
 	a.calls[k]++
 	if a.failV4 > 0 {
@@ -197,6 +205,9 @@ func (a *fakeAlloc) ReleaseIPv4(ctx context.Context, ip net.IP) error {
 	}
 	a.mu.Unlock()
 	a.gate.pass("alloc", k)
+	if err := ctx.Err(); err != nil {
+		return err // the call was in flight when its context was cancelled
+	}
 	a.mu.Lock()
 	if _, ok := a.owner[k]; ok {
 		delete(a.owner, k)
@@ -210,6 +221,9 @@ func (a *fakeAlloc) ReleaseIPv4(ctx context.Context, ip net.IP) error {
 
 func (a *fakeAlloc) ReleaseIPv6(ctx context.Context, ip net.IP) error {
 	k := ip.String()
+	if err := ctx.Err(); err != nil {
+		return err
+	}
 	a.mu.Lock()
 	defer a.mu.Unlock()
 	a.calls6[k]++
@@ -600,7 +614,8 @@ func runSubMgrInBubble(tc *tcase, rs *radServer, res *result, dir string) {
 	x.auth = &stubAuth{res: map[string]*subscriber.AuthResult{}, err: map[string]error{}}
 	cfg := subscriber.ManagerConfig{CleanupInterval: 30 * time.Second, DefaultSessionTimeout: 24 * time.Hour, DefaultIdleTimeout: time.Duration(p.IdleS) * time.Second,
 		AuthTimeout: 10 * time.Second, MaxAuthAttempts: 3, MaxSessions: 1000, DefaultDownloadRateBps: 100_000_000, DefaultUploadRateBps: 50_000_000}
-	if tc.Path == "session-timeout" || secondPath(tc.Second) == "session-timeout" {
+	bySessTimeout := tc.Path == "session-timeout" || secondPath(tc.Second) == "session-timeout" || (tc.Path == "shutdown-during-sweep" && p.SweepBy == "session-timeout")
+	if bySessTimeout {
 		cfg.DefaultSessionTimeout = time.Duration(p.SessS) * time.Second
 		cfg.DefaultIdleTimeout = 0
 	}
@@ -630,7 +645,7 @@ func runSubMgrInBubble(tc *tcase, rs *radServer, res *result, dir string) {
 	for i, m := range p.BgMACs {
 		b := &smSess{mac: net.HardwareAddr(m), cid: []byte(fmt.Sprintf("bg/%d", i)), stag: uint16(4001 + i), ctag: uint16(100 + i), dual: p.DualStack && i%2 == 0}
 		bgTimeout := 240 * time.Hour
-		if tc.shape() == "stale" && tc.Path == "session-timeout" {
+		if (tc.shape() == "stale" && tc.Path == "session-timeout") || (tc.Path == "shutdown-during-sweep" && p.SweepBy == "session-timeout") {
 			bgTimeout = time.Duration(p.SessS) * time.Second // they time out in the same sweep as the session under test
 		}
 		okAuth(b.mac, bgTimeout)
@@ -659,7 +674,7 @@ func runSubMgrInBubble(tc *tcase, rs *radServer, res *result, dir string) {
 		}
 	} else {
 		var st time.Duration
-		if tc.Path == "session-timeout" || secondPath(tc.Second) == "session-timeout" {
+		if bySessTimeout {
 			st = time.Duration(p.SessS) * time.Second
 		}
 		okAuth(x.me.mac, st)
@@ -685,6 +700,51 @@ func runSubMgrInBubble(tc *tcase, rs *radServer, res *result, dir string) {
 	}
 	res.logf("  established to %q: id=%s ip=%v holds %v", tc.Prefix, x.me.id, x.me.ip, res.held)
 
+	if tc.Path == "shutdown-during-sweep" {
+		all := append([]*smSess{x.me}, x.bg...)
+		x.gate.arm("alloc", "*")
+		var active []*smSess
+		horizon := time.Duration(p.IdleS) * time.Second
+		if p.SweepBy == "session-timeout" {
+			active, horizon = all, time.Duration(p.SessS)*time.Second
+		}
+		x.advance(horizon+45*time.Second, active)
+		select {
+		case <-x.gate.parked:
+		default:
+			res.harness = "the sweep never reached the allocator"
+			return
+		}
+		res.logf("  the %s sweep is releasing %s (first of its batch); Manager.Stop() is called now", p.SweepBy, x.gate.hitID)
+		stopped := make(chan struct{})
+		go func() { defer close(stopped); _ = x.mgr.Stop() }()
+		synctest.Wait() // Stop has cancelled the manager's context and waits for the sweep goroutine
+		x.gate.open()
+		<-stopped
+		mgrStopped = true
+		synctest.Wait()
+		ended := 0
+		for _, ts := range all {
+			if _, alive := x.mgr.GetSession(ts.id); alive {
+				continue // not ended by the sweep: it keeps what it holds
+			}
+			ended++
+			if ts.ip != nil && x.alloc.ownerOf(ts.ip) == ts.id {
+				res.fail("C16/submgr/shutdown-during-sweep/pool", "the sweep ended session %s during Stop(), but its address %s is still allocated to it (released with the manager's cancelled context?)", ts.id, ts.ip)
+			}
+			if ts.ip6 != nil && x.alloc.ownerOf6(ts.ip6) == ts.id {
+				res.fail("C16/submgr/shutdown-during-sweep/pool6", "the sweep ended session %s during Stop(), but its IPv6 address %s is still allocated to it", ts.id, ts.ip6)
+			}
+			if n := x.termEvents(ts.id); n != 1 {
+				res.fail("C16/submgr/shutdown-during-sweep/terminate-event", "%d terminate events for the ended session %s", n, ts.id)
+			}
+		}
+		res.classes = append(res.classes, fmt.Sprintf("sweep-shutdown:ended-%d-of-%d", ended, len(all)))
+		if len(res.viol) == 0 && ended == len(all) {
+			x.oracleAll("shutdown-during-sweep", pre0, all)
+		}
+		return
+	}
 	switch tc.shape() {
 	case "none", "seq":
 		switch tc.Fault {
